@@ -238,11 +238,23 @@ fn big_case(args: &Args, rep: &mut Report, ragc: &str, dir: &str, b: u64) {
         1 => (4usize << 20) + 1,
         _ => (4usize << 20) - 1,
     };
-    let mut l0 = (target - 4) * 60 / 61;
-    while 4 + l0 + (l0 + 59) / 60 < target {
-        l0 += 1;
+    // 1 + name + 1 header bytes; not every remainder modulo 61 can be hit, so the description
+    // behind the name is lengthened until the second header lands exactly on the target
+    let mut name0 = String::from("c0");
+    let mut l0 = 0usize;
+    let mut aligned = false;
+    for pad in 0..8 {
+        name0 = if pad == 0 { "c0".to_string() } else { format!("c0 {}", "x".repeat(pad)) };
+        let h = name0.len() + 2;
+        l0 = (target - h) * 60 / 61;
+        while h + l0 + (l0 + 59) / 60 < target {
+            l0 += 1;
+        }
+        if h + l0 + (l0 + 59) / 60 == target {
+            aligned = true;
+            break;
+        }
     }
-    let aligned = 4 + l0 + (l0 + 59) / 60 == target;
     let lens = [l0, 2_300_000 + rng.usize(0, 1000), 150_000];
     let base: Vec<Vec<u8>> = lens.iter().map(|&l| gen::random_bases(&mut rng, l)).collect();
     let mut samples = Vec::new();
@@ -263,7 +275,7 @@ fn big_case(args: &Args, rep: &mut Report, ragc: &str, dir: &str, b: u64) {
                         *x = 4;
                     }
                 }
-                (format!("c{}", ci), d)
+                (if ci == 0 { name0.clone() } else { format!("c{}", ci) }, d)
             })
             .collect();
         samples.push(gen::Sample { name: name.to_string(), contigs });
